@@ -72,11 +72,17 @@ def make_atom_classifier(r: Resolver, stack_var: str | None) -> Callable[[ast.AS
         if t[0] == "cmp" and len(t[1]) == 1:
             op = t[1][0]
             a, b = t[2]
-            if op == "==" and (token_like(a) or token_like(b)):
+            if op in ("==", "!=") and (token_like(a) or token_like(b)):
                 other = b if token_like(a) else a
                 if other[0] == "global" and other[1] in KEYWORDS:
-                    return KEYWORDS[other[1]]
-            if op == "in" and token_like(a):
+                    return ("!" if op == "!=" else "") + KEYWORDS[other[1]]
+            if op in ("in", "not in") and token_like(a):
+                neg = "!" if op == "not in" else ""
+                if b[0] == "set" and {x[1] for x in b[1] if x[0] == "global"} == {"fuzzylite.rule.Rule.AND", "fuzzylite.rule.Rule.OR"}:
+                    return neg + "andor"
+                if any(s[0] == "attr" and s[2] == "hedge" for s in walk(b)) and any(s == ("global", "fuzzylite.library.settings") for s in walk(b)):
+                    return neg + "hedge"
+            if False and token_like(a):
                 if b[0] == "set" and {x[1] for x in b[1] if x[0] == "global"} == {"fuzzylite.rule.Rule.AND", "fuzzylite.rule.Rule.OR"}:
                     return "andor"
                 if any(s[0] == "attr" and s[2] == "hedge" for s in walk(b)) and any(s == ("global", "fuzzylite.library.settings") for s in walk(b)):
